@@ -30,6 +30,20 @@ def facts(extra_pos_apps=(), extra_pos_syms=(), conds=(), dims=()):
                  dims={"C", "D", "N", "M", "Pp"} | set(dims), conds=conds)
 
 
+def facts_inv(m, F=None, tag=""):
+    """facts() plus the pre-state invariant I2: variances >= floors"""
+    F = F or facts()
+    th = thr_of(m)
+    if isinstance(th, Arr):
+        if th.ndim == 2:
+            F.lower["v" + tag] = lambda c, d: P(th.fn(c, d))
+        else:
+            F.lower["v" + tag] = lambda c, d: P(th.fn(d))
+    else:
+        F.lower["v" + tag] = lambda c, d: P(th)
+    return F
+
+
 # ---------------------------------------------------------------- pre-states
 def gnorms_spec(var, C, D):
     return Arr((C,), lambda c: D * Poly.const(LOG2PI) + Sum(D, lambda d: T.mk_log(P(var.fn(c, d))), "d"))
@@ -91,9 +105,22 @@ def thr_of(m):
     return EPS if t is None else t
 
 
+class Params:
+    """the visible parameters of a machine, captured *now* (specifications are
+    lazy closures; the machine object may be mutated later)"""
+
+    def __init__(self, m):
+        if isinstance(m, Params):
+            self.w, self.mu, self.v = m.w, m.mu, m.v
+        else:
+            self.w, self.mu, self.v = m.fields["_weights"], m.fields["_means"], m.fields["_variances"]
+        self.fields = {"_weights": self.w, "_means": self.mu, "_variances": self.v}
+
+
 def lwl_term(m, x, c, s):
     """log w_c + Σ_d log N(x_sd; mu_cd, v_cd)   -- the C01 formula"""
-    w, mu, v = m.fields["_weights"], m.fields["_means"], m.fields["_variances"]
+    m = m if isinstance(m, Params) else Params(m)
+    w, mu, v = m.w, m.mu, m.v
     D = mu.shape[1]
     return T.mk_log(P(w.fn(c))) - Fraction(1, 2) * (
         D * Poly.const(LOG2PI)
@@ -115,6 +142,9 @@ def two_d(data):
 def spec_log_weighted_likelihood(ctx, data, machine):
     need_params(machine)
     C = machine.fields["_means"].shape[0]
+    real_machine, machine = machine, Params(machine)
+    if real_machine.fields["_g_norms"] is None and data.ndim == 2:
+        real_machine.fields["_g_norms"] = gnorms_spec(machine.v, C, data.shape[1])
     if data.ndim == 1:
         # broadcasting of a single vector against (D,) rows: result (C, 1)?  the real
         # code sums over the last axis and vstacks scalars -> shape (C, 1)
@@ -122,8 +152,6 @@ def spec_log_weighted_likelihood(ctx, data, machine):
         return Arr((C, ONE), lambda c, s: lwl_term(machine, x, c, s), "real", data.kind)
     N = data.shape[0]
     # cache fill of the lazy normaliser is allowed (and required to be the I3 value)
-    if machine.fields["_g_norms"] is None:
-        machine.fields["_g_norms"] = gnorms_spec(machine.fields["_variances"], C, data.shape[1])
     return Arr((C, N), lambda c, s: lwl_term(machine, data, c, s), "real", data.kind)
 
 
@@ -133,11 +161,13 @@ def spec_log_likelihood(ctx, data, machine):
     C = machine.fields["_means"].shape[0]
     if machine.fields["_g_norms"] is None:
         machine.fields["_g_norms"] = gnorms_spec(machine.fields["_variances"], C, x.shape[1])
+    machine = Params(machine)
     return Arr((x.shape[0],), lambda s: LSE(C, lambda c: lwl_term(machine, x, c, s), "c"), "real", data.kind)
 
 
 def resp_term(m, x, c, s):
-    C = m.fields["_means"].shape[0]
+    m = m if isinstance(m, Params) else Params(m)
+    C = m.mu.shape[0]
     return T.mk_exp(lwl_term(m, x, c, s) - LSE(C, lambda k: lwl_term(m, x, k, s), "c"))
 
 
@@ -148,6 +178,7 @@ def spec_e_step(ctx, data, machine):
     C, D, N = m.fields["_weights"].shape[0], x.shape[1], x.shape[0]
     if m.fields["_g_norms"] is None:
         m.fields["_g_norms"] = gnorms_spec(m.fields["_variances"], C, D)
+    m = Params(m)
     I = ctx_interp(ctx)
     st = Obj(I.classes["GMMStats"])
     st.fields.update(
@@ -191,3 +222,170 @@ def spec_stats_iadd(ctx, self, other):
     for f in ("log_likelihood", "t", "n", "sum_px", "sum_pxx"):
         self.fields[f] = self.fields[f] + other.fields[f]
     return self
+
+
+# ---------------------------------------------------------------- data-structure invariant and setters (C17)
+def bmax(th, var):
+    return A.ewise(lambda t, x: T.mk_max(P(t), P(x)), th, var)
+
+
+def spec_set_weights(ctx, self, weights):
+    self.fields["_weights"] = weights
+    self.fields["_log_weights"] = A.ewise(lambda x: T.mk_log(P(x)), weights)
+
+
+def spec_set_means(ctx, self, means):
+    self.fields["_means"] = means
+
+
+def spec_set_variances(ctx, self, variances):
+    v = bmax(thr_of(self), variances)
+    self.fields["_variances"] = v
+    D = v.shape[-1]
+    self.fields["_g_norms"] = Arr(v.shape[:-1], lambda c: D * Poly.const(LOG2PI) + Sum(D, lambda d: T.mk_log(P(v.fn(c, d))), "d"))
+
+
+def spec_set_thresholds(ctx, self, threshold):
+    self.fields["_variance_thresholds"] = threshold
+    if self.fields["_variances"] is not None:
+        spec_set_variances(ctx, self, bmax(threshold, self.fields["_variances"]))
+
+
+def spec_get_gnorms(ctx, self):
+    if self.fields["_g_norms"] is None:
+        if self.fields["_variances"] is None:
+            raise PyRaise("ValueError", "GMMMachine variances were never set.")
+        v = self.fields["_variances"]
+        self.fields["_g_norms"] = gnorms_spec(v, v.shape[0], v.shape[1])
+    return self.fields["_g_norms"]
+
+
+def inv_clauses(m, F, name, out, hyps=()):
+    """Inv(m): I1 log-weights, I2 variances >= floors, I3 normaliser cache"""
+    from vt import verify as V
+    from vt import smt
+    from vt.verify import Clause
+    f = m.fields
+    c = T.fresh("c")
+    d = T.fresh("d")
+    V.compare_terms(P(f["_log_weights"].fn(c)), T.mk_log(P(f["_weights"].fn(c))), F, name + ".I1", out, hyps)
+    if f["_variances"] is not None:
+        th = thr_of(m)
+        v = f["_variances"]
+        tv = A.ewise(lambda t, x: P(t) + 0 * P(x), th, v)   # broadcast the floor to (C, D)
+        goal = T.cmp_cond("<=", P(tv.fn(c, d)), P(v.fn(c, d)))
+        st, info = smt.prove(goal, F, hyps)
+        out.append(Clause(name + ".I2", "discharged" if st == "proved" else ("refuted" if st == "refuted" else "undecided"),
+                          info.get("backend", ""), "variances >= current floors" + ("" if st == "proved" else ": " + str(info.get("model", ""))[:300])))
+        st, info = smt.prove(T.cmp_cond("<", ZERO, P(v.fn(c, d))), F, hyps)
+        out.append(Clause(name + ".I2pos", "discharged" if st == "proved" else ("refuted" if st == "refuted" else "undecided"),
+                          info.get("backend", ""), "variances > 0"))
+        if f["_g_norms"] is not None:
+            g = gnorms_spec(v, v.shape[0], v.shape[1])
+            V.compare_terms(P(f["_g_norms"].fn(c)), P(g.fn(c)), F, name + ".I3", out, hyps)
+
+
+# ---------------------------------------------------------------- M-steps (C03, C05)
+def spec_ml_m_step(ctx, machine, statistics, update_means=True, update_variances=False, update_weights=False,
+                   mean_var_update_threshold=EPS, **kwargs):
+    """property-level contract: every updated block is the maximiser of the
+    expected complete log-likelihood Q over that block, the others at their
+    in-force values, with counts floored at eps"""
+    st = statistics.fields
+    n, Fx, S, t = st["n"], st["sum_px"], st["sum_pxx"], st["t"]
+    eps = mean_var_update_threshold
+    nt = A.ewise(lambda x: T.mk_max(P(x), P(eps)), n)
+    if update_weights:
+        spec_set_weights(ctx, machine, nt / t)
+    if update_means:
+        spec_set_means(ctx, machine, Fx / nt[:, None])
+    if update_variances:
+        mu = machine.fields["_means"]
+        if mu is None:
+            raise PyRaise("ValueError", "GMMMachine means were never set.")
+        vstar = (S - 2 * mu * Fx + nt[:, None] * mu * mu) / nt[:, None]
+        spec_set_variances(ctx, machine, vstar)
+    return None
+
+
+def spec_map_m_step(ctx, machine, statistics, update_means=True, update_variances=False, update_weights=False,
+                    reynolds_adaptation=True, relevance_factor=4, alpha=0.5, mean_var_update_threshold=EPS):
+    """property-level contract (C05): relevance blend of prior and data"""
+    ubm = machine.fields["ubm"]
+    if ubm is None:
+        raise PyRaise("ValueError", "A machine used for MAP must have a UBM.")
+    st = statistics.fields
+    n, Fx, S, t = st["n"], st["sum_px"], st["sum_pxx"], st["t"]
+    eps = mean_var_update_threshold
+    C = n.shape[0]
+    if reynolds_adaptation:
+        a = n / (n + relevance_factor)
+    else:
+        a = alpha if isinstance(alpha, Arr) else A.const_arr((machine.fields["n_gaussians"],), alpha)
+    w0, mu0, v0 = ubm.fields["_weights"], need(ubm, "_means"), need(ubm, "_variances")
+    if update_weights:
+        blend = a * (n / t) + (1 - a) * w0
+        tot = blend.sum()
+        spec_set_weights(ctx, machine, blend / tot)
+    noev = A.ewise(lambda x: T.cmp_cond("<", P(x), P(eps)), n, dtype="bool")
+    if update_means:
+        ex = Fx / n[:, None]
+        new = a[:, None] * ex + (1 - a[:, None]) * mu0
+        spec_set_means(ctx, machine, A.ewise(lambda c_, p_, q_: T.mk_ite(c_, P(p_), P(q_)), noev[:, None], mu0, new))
+    if update_variances:
+        mu = need(machine, "_means")
+        ex2 = S / n[:, None]
+        prior2 = v0 + mu0 * mu0
+        new = a[:, None] * ex2 + (1 - a[:, None]) * prior2 - mu * mu
+        prior_only = prior2 - mu * mu
+        spec_set_variances(ctx, machine, A.ewise(lambda c_, p_, q_: T.mk_ite(c_, P(p_), P(q_)), noev[:, None], prior_only, new))
+    return None
+
+
+def need(m, fld):
+    v = m.fields[fld]
+    if v is None:
+        raise PyRaise("ValueError", "GMMMachine %s were never set." % fld.strip("_"))
+    return v
+
+
+def sum_stats(I, stats_list):
+    """fieldwise Σ of a (symbolic or concrete) list of statistics objects"""
+    if isinstance(stats_list, SList):
+        n = stats_list.slen()
+        first = stats_list.elem(Poly.const(0))
+        o = Obj(first.cls, dict(first.fields))
+        for f in ("log_likelihood", "t", "n", "sum_px", "sum_pxx"):
+            v = first.fields[f]
+            if isinstance(v, Arr):
+                o.fields[f] = Arr(v.shape, (lambda f: lambda *idx: Sum(n, lambda b: P(stats_list.elem(b).fields[f].fn(*idx)), "b"))(f))
+            else:
+                o.fields[f] = Sum(n, lambda b, f=f: P(stats_list.elem(b).fields[f]), "b")
+        return o
+    first = stats_list[0]
+    o = Obj(first.cls, dict(first.fields))
+    for s in stats_list[1:]:
+        for f in ("log_likelihood", "t", "n", "sum_px", "sum_pxx"):
+            o.fields[f] = o.fields[f] + s.fields[f]
+    return o
+
+
+def spec_m_step(ctx, statistics, machine):
+    """m_step(list of statistics, machine): statistics are summed fieldwise, the
+    trainer-specific M-step is applied with the machine's own settings, and the
+    average log-likelihood Σ ll / Σ t of the *incoming* parameters is returned"""
+    I = ctx_interp(ctx)
+    S = sum_stats(I, statistics)
+    f = machine.fields
+    kw = dict(update_means=f["update_means"], update_variances=f["update_variances"], update_weights=f["update_weights"],
+              mean_var_update_threshold=f["mean_var_update_threshold"])
+    if f["trainer"] == "map":
+        spec_map_m_step(ctx, machine, S, reynolds_adaptation=f["map_relevance_factor"] is not None,
+                        alpha=f["map_alpha"], relevance_factor=f["map_relevance_factor"], **kw)
+    else:
+        spec_ml_m_step(ctx, machine, S, **kw)
+    # in-place reduction lands in the first element (frame: statistics[0] is overwritten)
+    if isinstance(statistics, list):
+        for fld in ("log_likelihood", "t", "n", "sum_px", "sum_pxx"):
+            statistics[0].fields[fld] = S.fields[fld]
+    return (machine, S.fields["log_likelihood"] / S.fields["t"])
